@@ -400,7 +400,7 @@ Definition form_tag (m : string) (leaky : bool) : option string :=
     if String.eqb m "CreatePARSession" then Some "par_stores_raw_form" else Some ("storage_leak_form:" ++ m)
   else None.
 Definition known_tag (t : string) : bool :=
-  mem t ["oidc_session_keyed_by_full_code"; "oidc_device_delete_full_code"; "par_stores_raw_form"].
+  mem t ["oidc_session_keyed_by_full_code"; "par_stores_raw_form"].
 
 Definition opt_list {A} (o : option A) : list A := match o with Some x => [x] | None => [] end.
 (* every tag of a log; a tag that is not one of the recorded findings is reported first *)
@@ -503,6 +503,7 @@ Inductive c20case :=
 | KSan (allowed defaults : list string) (form : values) (stored : values)
 | KWl (name : string) (l : list string)
 | KSites (l : list csite)
+| KHint (where_ field : string)     (* a WithHint/WithDescription call whose argument is the text of a Go error; "" = none *)
 | KStore (flow : string) (secrets : list secret) (log : list scall).
 
 Definition check (c : c20case) : verdict :=
@@ -513,5 +514,6 @@ Definition check (c : c20case) : verdict :=
   | KSan a d f s => V (corr_b (veqb idn (sanitize_form (a ++ d) f) s)) (mon_sanitize a d f s)
   | KWl n l => V (corr_wl n l) (mon_wl n l)
   | KSites l => V (corr_sites l) (mon_sites l)
+  | KHint w f => V None (if String.eqb w "" then None else Some ("error_text_in_client_visible_field:" ++ w)%string)
   | KStore _ secs log => V (corr_store secs log) (mon_store secs log)
   end.
